@@ -87,6 +87,15 @@ def run (s0 : Sexp) : String :=
     match parseConstraint c, n.asNat? with
     | some c, some n => let m := toString (consumed c (List.range n)); both m m
     | _, _ => "error=bad-case"
+  | .list [.atom "nthem", a, b] =>
+    -- `(nthem n1 n2)`: `the(...)` as an operand of a query evaluated twice, the sub-query having n1 then n2 solutions
+    -- (the data changed in between): each evaluation shows what `the` over that many solutions shows
+    match a.asNat?, b.asNat? with
+    | some a, some b =>
+      let m := fun n => showThe (theRun (List.range n))
+      let sp := fun n => showThe (some (theSpec (List.range n)))
+      both (m a ++ " ; " ++ m b) (sp a ++ " ; " ++ sp b)
+    | _, _ => "error=bad-case"
   | .list [.atom "the", n] =>
     match n.asNat? with
     | some n => let sols := List.range n; both (showThe (theRun sols)) (showThe (some (theSpec sols)))
